@@ -5,7 +5,7 @@ import json
 import os
 
 here = os.path.dirname(os.path.dirname(os.path.abspath(__file__)))
-print("| id | file(s) | what the change does | target check, tier that catches it | violation keys (first) |")
+print("| id | file(s) | what the change does | caught by | first result / strengthening |")
 print("|---|---|---|---|---|")
 for f in sorted(glob.glob(f"{here}/seeded/*/meta.json")):
     m = json.load(open(f))
@@ -20,4 +20,7 @@ for f in sorted(glob.glob(f"{here}/seeded/*/meta.json")):
     missed = [k for k in sorted(runs) if runs[k]["exit"] != 1]
     summary = m.get("summary", "").lstrip("# ").replace("|", "/")[:140]
     files = ", ".join(os.path.basename(x) for x in m.get("files", []))
-    print(f"| {m['id']} | {files} | {summary} | {', '.join(caught) or 'NOT CAUGHT'} | {', '.join(keys)} |")
+    first = m.get("first_result", "caught at first run")
+    if "strengthening" in m:
+        first += "; " + m["strengthening"]
+    print(f"| {m['id']} | {files} | {summary} | {', '.join(caught) or 'NOT CAUGHT'} ({', '.join(keys)}) | {first} |")
